@@ -21,7 +21,13 @@ fn system_time(secs: i64, nanos: u32) -> Option<SystemTime> {
     }
 }
 
+thread_local! {
+    /// the `Timestamp` of the most recent successful conversion (for ordering through `Timestamp`'s own `Ord`)
+    static LAST: std::cell::Cell<Option<Timestamp>> = const { std::cell::Cell::new(None) };
+}
+
 fn obs(r: Result<Result<Timestamp, TimestampError>, String>) -> String {
+    LAST.with(|c| c.set(match &r { Ok(Ok(t)) => Some(*t), _ => None }));
     match r {
         Ok(Ok(t)) => format!("ok {}", u32::from(t)),
         Ok(Err(TimestampError::Underflow)) => "underflow".into(),
@@ -67,9 +73,39 @@ pub fn eval(op: &str, a: &[&str]) -> Option<String> {
         "tsutc" if a.len() == 2 => convert("utc", i(a[0])?, n(a[1])?, 0),
         "tsfix" if a.len() == 3 => convert("fix", i(a[0])?, n(a[1])?, o(a[2])?),
         "tspair" if a.len() == 8 => {
+            LAST.with(|c| c.set(None));
             let r1 = convert(a[0], i(a[1])?, n(a[2])?, o(a[3])?)?;
+            let t1 = LAST.with(|c| c.take());
             let r2 = convert(a[4], i(a[5])?, n(a[6])?, o(a[7])?)?;
-            Some(format!("{} & {}", r1, r2))
+            let t2 = LAST.with(|c| c.take());
+            // the order of the two results as `Timestamp` values (its own Ord / PartialOrd), not of the numbers
+            let ord = match (t1, t2) {
+                (Some(x), Some(y)) => {
+                    let c = x.cmp(&y);
+                    if x.partial_cmp(&y) != Some(c) || (x == y) != (c == std::cmp::Ordering::Equal) || (x < y) != (c == std::cmp::Ordering::Less) {
+                        "incoherent"
+                    } else { ord_str(c) }
+                }
+                _ => "-",
+            };
+            Some(format!("{} & {} & {}", r1, r2, ord))
+        }
+        // a chrono reading INSIDE a leap second: second S (S % 60 == 59 in the zone) with nanos = 1e9 + EXTRA
+        "tsleap" if a.len() == 4 => {
+            let (kind, secs, extra, off) = (a[0], i(a[1])?, n(a[2])?, o(a[3])?);
+            if extra >= NS { return None; }
+            Some(match DateTime::<Utc>::from_timestamp(secs, NS + extra) {
+                None => "unrepresentable".into(),
+                Some(dt) => match kind {
+                    "utc" => obs(guarded(move || Timestamp::try_from(dt))),
+                    "fix" => {
+                        let tz = FixedOffset::east_opt(off)?;
+                        let z: DateTime<FixedOffset> = dt.with_timezone(&tz);
+                        obs(guarded(move || Timestamp::try_from(z)))
+                    }
+                    _ => return None,
+                },
+            })
         }
         _ => None,
     }
@@ -221,6 +257,18 @@ pub fn gen(ctx: &mut Ctx) {
         }
     }
 
+    // 2b. readings inside a leap second (chrono keeps them as nanos >= 1e9 on a second that is :59), at the boundaries
+    if si == 0 {
+        for base in [-1i64, 59, -61, TWO31 + 51, TWO31 - 9, TWO32 - 17, TWO32 + 43, 1_483_228_799] {
+            for extra in [0u32, 1, 500_000_000, 999_999_999] {
+                ctx.req(&format!("tsleap utc {} {} 0", base, extra));
+                for off in [3600, -3600, 19_800, -12_600] {
+                    ctx.req(&format!("tsleap fix {} {} {}", base, extra, off));
+                }
+            }
+        }
+    }
+
     // 3. seeded instants over ±2^40 s biased to the boundaries
     let n = ctx.q(100_000u64, 2_000_000) / sn;
     for _ in 0..n {
@@ -235,7 +283,7 @@ pub fn gen(ctx: &mut Ctx) {
     for _ in 0..n {
         let s1 = pick_secs_inside(&mut ctx.rng);
         let n1 = pick_nanos(&mut ctx.rng);
-        let (s2, n2) = match ctx.rng.below(6) {
+        let (s2, n2) = match ctx.rng.below(7) {
             0 => (s1, n1),
             1 => (s1, pick_nanos(&mut ctx.rng)),
             2 => {
@@ -244,7 +292,9 @@ pub fn gen(ctx: &mut Ctx) {
             }
             3 => (s1 + ctx.rng.range(-2, 2), pick_nanos(&mut ctx.rng)),
             4 => (s1 + ctx.rng.range(-100_000, 100_000), pick_nanos(&mut ctx.rng)),
-            _ => (pick_secs_inside(&mut ctx.rng), pick_nanos(&mut ctx.rng)),
+            5 => (pick_secs_inside(&mut ctx.rng), pick_nanos(&mut ctx.rng)),
+            // far apart: more than 2^31 s (the distance at which serial-number style comparisons flip)
+            _ => ((s1 + TWO31 + ctx.rng.range(-3, 100_000)).rem_euclid(TWO32), pick_nanos(&mut ctx.rng)),
         };
         let (k1, o1) = pick_kind(&mut ctx.rng, &offs);
         let (k2, o2) = pick_kind(&mut ctx.rng, &offs);
